@@ -36,7 +36,9 @@ fn elem_strategy() -> BoxedStrategy<ElemKind> {
 pub enum C18Case {
     /// create/drop history: streams (pages, elem index) are created by the main thread and by
     /// `threads` workers; each stream is dropped by the thread `owner % threads` in `order`.
-    History { threads: u8, streams: Vec<(u8, u8, u8)>, use_them: bool },
+    /// `unwind`: the worker threads do not drop their buffers normally but panic while
+    /// owning them (the buffers are released by stack unwinding)
+    History { threads: u8, streams: Vec<(u8, u8, u8)>, use_them: bool, #[serde(default)] unwind: bool },
     /// set-up table entry
     Setup { elem: ElemKind, size: usize },
     /// elements of a page and more: [u8; 4096 << big] x `pages` pages; those that do not
@@ -56,8 +58,9 @@ fn history_strategy(max_streams: usize) -> BoxedStrategy<C18Case> {
         1u8..9,
         prop::collection::vec((1u8..9, 0u8..4, any::<u8>()), 1..max_streams),
         any::<bool>(),
+        prop::bool::weighted(0.3),
     )
-        .prop_map(|(threads, streams, use_them)| C18Case::History { threads, streams, use_them })
+        .prop_map(|(threads, streams, use_them, unwind)| C18Case::History { threads, streams, use_them, unwind })
         .boxed()
 }
 
@@ -146,11 +149,11 @@ impl Prop for C18 {
             C18Case::SetupBig { big, pages } => run_setup_big(*big, *pages, ctx),
             C18Case::Churn { threads, rounds, seed, big, refuse } => run_churn(*threads, *rounds, *seed, *big, *refuse, ctx),
             C18Case::Alias { pages, shift } => run_alias(*pages, *shift, ctx),
-            C18Case::History { threads, streams, use_them } => run_history(*threads, streams, *use_them, ctx),
+            C18Case::History { threads, streams, use_them, unwind } => run_history(*threads, streams, *use_them, *unwind, ctx),
         }
     }
     fn rule(&self) -> String {
-        "generated: create/drop histories of 1..200 stream buffers of 1-8 pages and 4 element types, created by the main thread and dropped (after optional use) by 1-8 threads in generated order; enumerated set-up table and aliasing table; concurrent churn in a child process (2-12 threads: holders keep pools of 1-8 page buffers with known content straddling the wrap and re-verify them, churners create/verify/drop buffers of up to 64 pages or of 2/4/6 MiB, and optionally every third thread keeps requesting sizes that must be refused; a crash of the child, a changed byte, broken aliasing or a leftover mapping is a violation); child-process fault campaigns (RLIMIT_AS lowered so that mmap fails after k buffers; map-count exhaustion with both parities so that the first or the second, MAP_FIXED, step fails). Oracle: after joining, the number of /proc/self/maps entries of deleted files and of /proc/self/fd entries equals the baseline taken at the start of the case; while a buffer lives its two halves are two adjacent mappings of one inode at offset 0, each `size` long, and every byte written through one half is read through the other; invalid configurations give Err from Buffer::new with no mapping left behind; injected mapping failures are Err (no panic/abort), repeated failures do not grow the mapping count, every buffer handed out under memory pressure has its advertised capacity and a full window that reads back intact, surviving and fresh streams still pass a wrap-forcing history. Non-trivial: >= 2 threads and >= 20 streams, or an injected failure occurred, or an enumerated table entry; distinct = hash of the case.".into()
+        "generated: create/drop histories of 1..200 stream buffers of 1-8 pages and 4 element types, created by the main thread and dropped (after optional use) by 1-8 threads in generated order, or released by stack unwinding when the worker panics while owning them; enumerated set-up table and aliasing table; concurrent churn in a child process (2-12 threads: holders keep pools of 1-8 page buffers with known content straddling the wrap and re-verify them, churners create/verify/drop buffers of up to 64 pages or of 2/4/6 MiB, and optionally every third thread keeps requesting sizes that must be refused; a crash of the child, a changed byte, broken aliasing or a leftover mapping is a violation); child-process fault campaigns (RLIMIT_AS lowered so that mmap fails after k buffers; map-count exhaustion with both parities so that the first or the second, MAP_FIXED, step fails). Oracle: after joining, the number of /proc/self/maps entries of deleted files and of /proc/self/fd entries equals the baseline taken at the start of the case; while a buffer lives its two halves are two adjacent mappings of one inode at offset 0, each `size` long, and every byte written through one half is read through the other; invalid configurations give Err from Buffer::new with no mapping left behind; injected mapping failures are Err (no panic/abort), repeated failures do not grow the mapping count, every buffer handed out under memory pressure has its advertised capacity and a full window that reads back intact, surviving and fresh streams still pass a wrap-forcing history. Non-trivial: >= 2 threads and >= 20 streams, or an injected failure occurred, or an enumerated table entry; distinct = hash of the case.".into()
     }
     fn assumptions(&self) -> Vec<String> {
         vec![
@@ -474,7 +477,10 @@ fn run_alias(pages: u8, shift: u16, ctx: &mut Ctx) {
     }
 }
 
-fn run_history(threads: u8, streams: &[(u8, u8, u8)], use_them: bool, ctx: &mut Ctx) {
+fn run_history(threads: u8, streams: &[(u8, u8, u8)], use_them: bool, unwind: bool, ctx: &mut Ctx) {
+    if unwind {
+        ctx.class("history/dropped-by-unwinding");
+    }
     let threads = threads.max(1) as usize;
     ctx.class(format!("threads={threads}"));
     let base = (deleted_mappings(), open_fds());
@@ -516,6 +522,14 @@ fn run_history(threads: u8, streams: &[(u8, u8, u8)], use_them: bool, ctx: &mut 
                     for b in share.iter().chain(own.iter()) {
                         touch(b);
                     }
+                }
+                if unwind {
+                    // the thread dies with its buffers: they are released by stack unwinding
+                    let _ = crate::engine::catch(move || {
+                        let _owned = (share, own);
+                        panic!("worker gives up while owning stream buffers");
+                    });
+                    return;
                 }
                 // drop in an order different from creation
                 while let Some(b) = if share.len() % 2 == 0 { share.pop() } else if share.is_empty() { None } else { Some(share.remove(0)) } {
